@@ -564,6 +564,127 @@ def normalise(tree: ast.Module, path: str) -> Tuple[ast.Module, List[str]]:
     try:
         out = inl.run()
         _sink_raises(out, inl.log, path)
+        _propagate_new_locals(out, inl.log, path)
         return out, inl.log
     except RecursionError:
         return tree, inl.log + [f'{path}: normalisation abandoned (recursion)']
+
+
+# --------------------------------------------------------------------------------------
+# new locals that only name a loop-invariant value (hoisting) are read through
+# --------------------------------------------------------------------------------------
+
+def _load_known_locals() -> Dict[str, set]:
+    import json
+    import os
+    p = os.path.join(os.path.dirname(os.path.abspath(__file__)), 'spec', 'known_locals.json')
+    try:
+        with open(p, encoding='utf-8') as fh:
+            return {k: set(v) for k, v in json.load(fh).items()}
+    except (OSError, ValueError):
+        return {}
+
+
+KNOWN_LOCALS = _load_known_locals()
+PURE_CALLS = {'abs', 'min', 'max', 'float', 'int', 'bool', 'len'}
+
+
+def _propagate_new_locals(tree: ast.Module, log: List[str], path: str) -> None:
+    """In a function of the pinned inventory, a local the pinned function does not have, assigned exactly once at the top
+    level of the body from a call-free expression (math.* and a few pure builtins allowed) over names that are never
+    assigned again and attributes that this function neither stores nor can have stored by a method of `self` it calls,
+    is replaced by that expression where it is used.  The value is the same at every use, so reading it later is
+    unobservable; hoisting an invariant out of a loop then leaves the anchored function as it was."""
+    classes = {c.name: c for c in ast.walk(tree) if isinstance(c, ast.ClassDef)}
+
+    def stored_attrs(fn) -> set:
+        return {x.attr for x in ast.walk(fn) if isinstance(x, ast.Attribute) and isinstance(x.ctx, (ast.Store, ast.Del))}
+
+    def methods_called_on_self(fn, me) -> set:
+        return {c.func.attr for c in ast.walk(fn) if isinstance(c, ast.Call) and isinstance(c.func, ast.Attribute)
+                and isinstance(c.func.value, ast.Name) and c.func.value.id == me}
+
+    def do(fn: ast.FunctionDef, qual: str, cls: Optional[ast.ClassDef]):
+        known = KNOWN_LOCALS.get(f'{path}::{qual}')
+        if known is None:
+            return
+        me = fn.args.args[0].arg if fn.args.args else None
+        store_count: Dict[str, int] = {}
+        for x in ast.walk(fn):
+            if isinstance(x, ast.Name) and isinstance(x.ctx, (ast.Store, ast.Del)):
+                store_count[x.id] = store_count.get(x.id, 0) + 1
+        params = {a.arg for a in fn.args.args + fn.args.kwonlyargs + fn.args.posonlyargs}
+        own_stores = stored_attrs(fn)
+        callee_stores: set = set()
+        if cls is not None and me is not None:
+            todo, seen = list(methods_called_on_self(fn, me)), set()
+            while todo:
+                m_ = todo.pop()
+                if m_ in seen:
+                    continue
+                seen.add(m_)
+                for st in cls.body:
+                    if isinstance(st, ast.FunctionDef) and st.name == m_:
+                        callee_stores |= stored_attrs(st)
+                        if st.args.args:
+                            todo += list(methods_called_on_self(st, st.args.args[0].arg))
+
+        def pure(e) -> bool:
+            if isinstance(e, ast.Constant):
+                return True
+            if isinstance(e, ast.Name):
+                return isinstance(e.ctx, ast.Load) and (store_count.get(e.id, 0) == 0 or (store_count.get(e.id, 0) == 1 and e.id not in params)) \
+                    and not (e.id in params and store_count.get(e.id, 0) > 0)
+            if isinstance(e, ast.Attribute):
+                return e.attr not in own_stores and e.attr not in callee_stores and pure(e.value)
+            if isinstance(e, (ast.BinOp,)):
+                return pure(e.left) and pure(e.right)
+            if isinstance(e, ast.UnaryOp):
+                return pure(e.operand)
+            if isinstance(e, ast.Call) and not e.keywords:
+                f_ = e.func
+                ok = (isinstance(f_, ast.Attribute) and isinstance(f_.value, ast.Name) and f_.value.id == 'math') or \
+                    (isinstance(f_, ast.Name) and f_.id in PURE_CALLS)
+                return ok and all(pure(a) for a in e.args)
+            return False
+        changed = True
+        while changed:
+            changed = False
+            for i, st in enumerate(fn.body):
+                tgt = val = None
+                if isinstance(st, ast.Assign) and len(st.targets) == 1 and isinstance(st.targets[0], ast.Name):
+                    tgt, val = st.targets[0].id, st.value
+                elif isinstance(st, ast.AnnAssign) and isinstance(st.target, ast.Name) and st.value is not None:
+                    tgt, val = st.target.id, st.value
+                if tgt is None or tgt in known or store_count.get(tgt, 0) != 1 or not pure(val):
+                    continue
+                if isinstance(val, (ast.Constant, ast.Name)) and False:
+                    continue
+                loads = [x for later in fn.body[i + 1:] for x in ast.walk(later) if isinstance(x, ast.Name) and x.id == tgt]
+                early = [x for earlier in fn.body[:i + 1] for x in ast.walk(earlier) if isinstance(x, ast.Name) and x.id == tgt
+                         and isinstance(x.ctx, ast.Load)]
+                nested_store = any(isinstance(x, (ast.Global, ast.Nonlocal)) and tgt in x.names for x in ast.walk(fn))
+                if early or nested_store or not loads:
+                    continue
+
+                class _Sub(ast.NodeTransformer):
+                    def visit_Name(self, n):
+                        if n.id == tgt and isinstance(n.ctx, ast.Load):
+                            return ast.copy_location(copy.deepcopy(val), n)
+                        return n
+                for j in range(i + 1, len(fn.body)):
+                    fn.body[j] = _Sub().visit(fn.body[j])
+                del fn.body[i]
+                store_count[tgt] = 0
+                log.append(f'{path}:{st.lineno} new local `{tgt}` of {qual} read through (`{ast.unparse(val)[:50]}`)')
+                changed = True
+                break
+
+    def rec(node, prefix, cls):
+        for st in node.body:
+            if isinstance(st, ast.FunctionDef):
+                do(st, f'{prefix}{st.name}', cls)
+            elif isinstance(st, ast.ClassDef):
+                rec(st, f'{prefix}{st.name}.', st)
+    rec(tree, '', None)
+    ast.fix_missing_locations(tree)
